@@ -460,6 +460,32 @@ def late_edit_programs():
             return m
         return mk
 
+    def ext_same_cell_from_two_files():
+        # one external cell declared, identically, in two Python files (two libraries wrapping the same standard cell): one declaration
+        # in the package, whatever file each object came from (seed C06-r9-2: declarations keyed by the Python path of their source)
+        import importlib.util, tempfile, shutil
+        src = "import hdl21 as h\nInv = h.ExternalModule(name='inv_1', domain='stdcells', port_list=[h.Input(name='a'), h.Output(name='y')], paramtype=dict)\n"
+        d = tempfile.mkdtemp(prefix="c06_two_files_")
+        mods = {}
+        try:
+            for nm in ("cells_a", "cells_b"):
+                path = os.path.join(d, nm + ".py")
+                with open(path, "w") as f:
+                    f.write(src)
+                spec = importlib.util.spec_from_file_location(nm, path)
+                mod = importlib.util.module_from_spec(spec)
+                sys.modules[nm] = mod
+                spec.loader.exec_module(mod)
+                mods[nm] = mod
+        finally:
+            shutil.rmtree(d, ignore_errors=True)
+        ga, gb = vars(mods["cells_a"]), vars(mods["cells_b"])
+        m = h.Module(name="TwoFiles")
+        m.a, m.b, m.c = h.Signals(3)
+        m.i0 = ga["Inv"]({})(a=m.a, y=m.b)
+        m.i1 = gb["Inv"]({})(a=m.b, y=m.c)
+        return m
+
     def vis_changed(promote):
         def mk():
             tag = "P" if promote else "H"
@@ -493,7 +519,7 @@ def late_edit_programs():
         return dac
 
     return [("late:concat_part_resized", concat_part_resized), ("late:concat_part_resized_after_failure", concat_part_resized_after_failure),
-            ("ext:declared_twice_other_width", ext_twice_other_width(False)), ("ext:declared_twice_other_width_wide_first", ext_twice_other_width(True)),
+            ("ext:same_cell_from_two_files", ext_same_cell_from_two_files), ("ext:declared_twice_other_width", ext_twice_other_width(False)), ("ext:declared_twice_other_width_wide_first", ext_twice_other_width(True)),
             ("late:ext_ports_grown", ext_ports_grown), ("late:ext_ports_shrunk", ext_ports_shrunk), ("late:signal_narrowed", signal_narrowed),
             ("late:vis_promoted", vis_changed(True)), ("late:vis_hidden", vis_changed(False)),
             ("names:module_called_name", called_name), ("names:parent_over_dotted_child", dotted_child)]
